@@ -13,7 +13,9 @@ PROPS = {
                 property_files=("C09runtime",),
                 runtime=_RT + ["NetRun.vo", "Monitors.vo"],
                 targets=["Properties/C09.vo", "Properties/C09runtime.vo"]),
-    "C10": dict(kind="check", quick=3, thorough=60, runtime=_RT, targets=["Properties/C10.vo"]),
+    # C10b: the type classes (arguments, operands, literal values, deeper path steps), coq/Check/CheckProofsC10b.v
+    "C10": dict(kind="check", quick=3, thorough=60, property_files=("C10b",), runtime=_RT,
+                targets=["Properties/C10.vo", "Properties/C10b.vo"]),
     "C11": dict(kind="check", quick=160, thorough=3200, runtime=_RT, targets=["Properties/C11.vo"]),
     # C16text: the same property on program TEXTS (coq/TextPipeline.v; extra slice harness/kind_c16text.py)
     "C16": dict(kind="check", quick=120, thorough=2400, quick_fuzz=1500, thorough_fuzz=30000,
